@@ -513,6 +513,12 @@ class CodeGenerator(NodeVisitor):
             for k in chain((x.key for x in node.kwargs), extra_kwargs or ())
         )
 
+        for kwarg in node.kwargs:
+            if extra_kwargs is not None and kwarg.key in extra_kwargs:
+                self.fail(
+                    f"keyword argument {kwarg.key!r} is used internally", kwarg.lineno
+                )
+
         for arg in node.args:
             self.write(", ")
             self.visit(arg, frame)
